@@ -93,6 +93,10 @@ def step (d : D) (ws : List String) : D × String :=
     match parseTx rest with
     | some ops => ({ d with hasTx := true, txOps := ops }, "ok")
     | none => (d, "bad-op")
+  | "txmore" :: _n :: rest =>     -- further writes in the SAME transaction (after scans have been taken from it)
+    match parseTx rest with
+    | some ops => ({ d with hasTx := true, txOps := d.txOps ++ ops }, "ok")
+    | none => (d, "bad-op")
   | ["build", what] =>
     if what == "hier" || what == "factory" then ({ d with top := some (.inl (mkSrcs d)), range := none, wraps := [] }, "ok")
     else if what == "txiter" then
